@@ -36,6 +36,23 @@ def run(ctx, payload):
         from props import c11
         ops = [[o[0], o[1], (o[2] if o[0] != "call" else {k: dec(v) for k, v in o[2]})] for o in rep["history"]]
         c11.run_history(ctx, ops, None)
+        if not ctx.violations and "model" in rep and ops and ops[-1][0] == "call":
+            # recorded against the model's answer for the last text (evaluators of one process may share the fault)
+            from pyab_experiment.experiment_evaluator import ExperimentEvaluator
+            objs = {}
+            out = None
+            for kind_, ident, arg in ops:
+                try:
+                    if kind_ == "new":
+                        objs[ident], _ = common.quiet(lambda: ExperimentEvaluator(arg))
+                    elif kind_ == "recompile":
+                        common.quiet(lambda: objs[ident].recompile(arg))
+                    else:
+                        out = common.outcome_of(lambda: objs[ident](**arg))
+                except Exception as ex:  # noqa
+                    out = {"e": common.classify_exc(ex)}
+            print("  implementation now:", json.dumps(out)[:200], " the text prescribes:", json.dumps(rep["model"])[:200])
+            return out != rep["model"]
         return bool(ctx.violations)
     if "weights" in rep and "h" in rep:
         import choicelib
